@@ -190,7 +190,19 @@ def r16_5(ctx: Ctx) -> None:
                                 edge = next((s_ for s_ in tn.succ if s_.kind == ("true" if pol else "false")), None)
                                 if edge is not None and all(isinstance(s_.ast, ast.Return) and isinstance(s_.ast.value, ast.Constant) and s_.ast.value.value is False for s_ in edge.succ):
                                     climb = True
-    normp = any(isinstance(c, ast.Call) and dotted(c.func).endswith("normpath") for c in q.calls(f))
+    # alternative form: the lexically resolved name (normpath) is looked at for a leading '..' and refused (a normpath call for another purpose - the
+    # drive test on the resolved name - says nothing about climbing)
+    normp = False
+    for tn in cfg.nodes:
+        if tn.kind != "test":
+            continue
+        for x in ast.walk(tn.ast):
+            dd = (isinstance(x, ast.Call) and attr_tail(x) == "startswith" and x.args and any(isinstance(k, ast.Constant) and isinstance(k.value, str) and k.value.startswith("..") for k in ast.walk(x.args[0]))
+                  and q.derives_from(f, x.func.value, lambda v: isinstance(v, ast.Call) and (dotted(v.func) or "").endswith("normpath"), depth=3)) or \
+                 (isinstance(x, ast.Compare) and any(isinstance(k, ast.Constant) and k.value == ".." for k in x.comparators)
+                  and q.derives_from(f, x.left, lambda v: isinstance(v, ast.Call) and (dotted(v.func) or "").endswith("normpath"), depth=3))
+            if dd and any(e.kind == "true" and all(isinstance(s_.ast, ast.Return) and isinstance(s_.ast.value, ast.Constant) and s_.ast.value.value is False for s_ in e.succ) for e in tn.succ):
+                normp = True
     ctx.check(climb or normp, "R16.5", f, f.node, "names climbing above their own root are rejected independently of the probe directory",
               "check_archive_path decides only on the path joined to a fixed probe directory: a name that climbs out with '..' and re-enters by "
               "spelling the probe's own components (../dafj08sajfa/x) is accepted although it climbs above the archive root",
